@@ -11,8 +11,8 @@ import z3
 from .core import AND, IMPL, OR, Ctx, Red, is_z3, sort_of, zint
 from . import ops
 
-Z3_TIMEOUT_MS = int(os.environ.get("TVC_Z3_TIMEOUT_MS", "20000"))
-CVC5_TIMEOUT_S = int(os.environ.get("TVC_CVC5_TIMEOUT_S", "60"))
+Z3_TIMEOUT_MS = int(os.environ.get("TVC_Z3_TIMEOUT_MS", "40000"))
+CVC5_TIMEOUT_S = int(os.environ.get("TVC_CVC5_TIMEOUT_S", "120"))
 
 
 def _apps(formulas):
